@@ -23,6 +23,18 @@ func Generate(t *rapid.T, o ymodel.Opts) (*ymodel.Set, map[string]int) {
 	b.CompleteT = func(td *ymodel.Typedef) bool { return g.CompleteT[td] }
 	b.CompleteG = func(gr *ymodel.Grouping) bool { return g.CompleteG[gr] }
 	g.Fill()
+	if !o.NoOlder && rapid.IntRange(0, 4).Draw(t, "older-revision-too") == 0 {
+		var mods []*ymodel.Module
+		for _, m := range g.Set.Modules {
+			if !m.IsSub {
+				mods = append(mods, m)
+			}
+		}
+		m := mods[rapid.IntRange(0, len(mods)-1).Draw(t, "older-of")]
+		m.Revisions = []string{"2021-12-31"}
+		g.Set.Older, g.Set.OlderFirst = m.Name, rapid.Bool().Draw(t, "older-first")
+		g.Labels["older-revision-also-loaded"]++
+	}
 	return g.Set, g.Labels
 }
 
@@ -37,6 +49,16 @@ func Order(t *rapid.T, n int) []int {
 
 // Sources returns the set's texts in the given order (nil: model order).
 func Sources(set *ymodel.Set, order []int) []ymodel.Source {
+	if o := set.OlderText(); o != nil {
+		// the order is one of the modules of the set; the older revision comes first or last
+		set2 := *set
+		set2.Older = ""
+		srcs := Sources(&set2, order)
+		if set.OlderFirst {
+			return append([]ymodel.Source{*o}, srcs...)
+		}
+		return append(srcs, *o)
+	}
 	srcs := set.Texts()
 	if len(order) != len(srcs) {
 		return srcs
